@@ -280,7 +280,10 @@ type delta struct {
 // expectDeltas compares the measured change of every tracked account in every token
 // group with what the operation explicitly moves.
 func (r *poolRun) expectDeltas(op string, before snap, want []delta) {
-	if !r.c04 {
+	kind := strings.SplitN(op, " ", 2)[0]
+	// C05 speaks of who pays what when a transfer is queued, its fee raised, or it is cancelled
+	c05op := r.c05 && (kind == "increase-fee" || kind == "cancel" || kind == "send")
+	if !r.c04 && !c05op {
 		return
 	}
 	after := r.snapshot()
@@ -302,8 +305,12 @@ func (r *poolRun) expectDeltas(op string, before snap, want []delta) {
 				w = sdkmath.ZeroInt()
 			}
 			if !got.Equal(w) {
-				kind := strings.SplitN(op, " ", 2)[0]
-				r.res.Violate("C04/unexpected-balance-change/"+kind+"/"+string(r.group[base].Kind), "%s: holdings of %s in token group %s changed by %s, the operation moves %s", op, u, base, got, w)
+				if r.c04 {
+					r.res.Violate("C04/unexpected-balance-change/"+kind+"/"+string(r.group[base].Kind), "%s: holdings of %s in token group %s changed by %s, the operation moves %s", op, u, base, got, w)
+				}
+				if c05op {
+					r.res.Violate("C05/payment-mismatch/"+kind, "%s: holdings of %s in token group %s changed by %s, the operation charges / refunds %s", op, u, base, got, w)
+				}
 			}
 		}
 	}
